@@ -24,9 +24,28 @@ package gortsplib
 //@   assert[C17]@store:Scheme c.Scheme == "rtsps" ==> ru.Scheme == "rtsps"
 //@   modifies *
 
+// SETUP on the client: over RTSPS a UDP transport is requested only with the secure profile
+// (the assertions sit right after the check, before anything else runs), and the request is
+// sent to a media URL that exists (C12: Media.URL returned it without error).
 //@ func (c *Client) doSetup
 //@   opt inline=0
+//@   assert[C17]@call:createUDPListenerPair#1 c.Scheme == "rtsps" ==> th.Profile == headers.TransportProfileSAVP
+//@   assert[C17]@store:Delivery#2 c.Scheme == "rtsps" ==> th.Profile == headers.TransportProfileSAVP
+//@   assert[C12]@call:do mediaURL != nil
 //@   modifies *
+
+//@ func isSecure
+//@   ensures[C17] ret <==> profile == headers.TransportProfileSAVP
+//@   pure
+
+// The first transport of the client's list that the connection supports, or none.
+//@ func pickFirstSupportedTransport
+//@   opt safety-tag=C17
+//@   requires sc != nil && sc.s != nil
+//@   ensures[C17] ret != nil ==> (ret.Profile == headers.TransportProfileSAVP ==> sc.s.TLSConfig != nil)
+//@   ensures[C17] ret != nil && ret.Protocol == headers.TransportProtocolUDP && sc.s.TLSConfig != nil ==> ret.Profile == headers.TransportProfileSAVP
+//@   ensures[C17] ret != nil && ret.Protocol == headers.TransportProtocolUDP ==> sc.tunnel == TunnelNone
+//@   modifies fresh
 
 //@ func (c *Client) do
 //@   opt inline=0
@@ -56,6 +75,7 @@ package gortsplib
 //@   assert[C02]@store:state#5 old(req.Method) == base.Pause && old(ss.state) == ServerSessionStatePlay
 //@   assert[C02]@store:state#6 old(req.Method) == base.Pause && old(ss.state) == ServerSessionStateRecord
 //@   ensures[C02] stateful(old(req.Method)) && !legalIn(old(ss.state), old(req.Method)) ==> ss.state == old(ss.state) && err != nil && ret0 != nil && ret0.StatusCode == base.StatusBadRequest
+//@   ensures[C19] old(ss.tcpConn) != nil && sc != old(ss.tcpConn) ==> err != nil && ret0 != nil && ret0.StatusCode == base.StatusBadRequest && ss.state == old(ss.state)
 //@   ensures[C02] ss.state == old(ss.state) || (old(ss.state) == ServerSessionStateInitial && ss.state == ServerSessionStatePreRecord) || (old(ss.state) == ServerSessionStateInitial && ss.state == ServerSessionStatePrePlay) || (old(ss.state) == ServerSessionStatePrePlay && ss.state == ServerSessionStatePlay) || (old(ss.state) == ServerSessionStatePreRecord && ss.state == ServerSessionStateRecord) || (old(ss.state) == ServerSessionStatePlay && ss.state == ServerSessionStatePrePlay) || (old(ss.state) == ServerSessionStateRecord && ss.state == ServerSessionStatePreRecord)
 //@   modifies *
 
@@ -134,3 +154,42 @@ package gortsplib
 //@   opt stable-field=Client.MaxPacketSize,Client.WriteQueueSize
 //@   ensures[C18] ret == nil ==> c.MaxPacketSize <= 1472 && c.MaxPacketSize != 0 && c.WriteQueueSize != 0 && (c.WriteQueueSize == 256 || (c.WriteQueueSize & (c.WriteQueueSize - 1)) == 0)
 //@   modifies *
+
+// --- C19: datagrams are accepted only from the negotiated peer ---------------------------------
+// The client's UDP listener reaches the time stamp update and the read callback only after
+// the source IP compared equal to the negotiated one and the source port equals the
+// negotiated (or, with AnyPortEnable, first seen) port. The assertion sits at the first call
+// after the two checks.
+//@ func (u *clientUDPListener) run
+//@   opt inline=0
+//@   assert[C19]@call:timeNow ipeq(ref(u.readIP), off(u.readIP), len(u.readIP), ref(uaddr.IP), off(uaddr.IP), len(uaddr.IP)) && u.readPort == uaddr.Port
+//@   modifies *
+
+// --- C20: URL analysis on the server ----------------------------------------------------------
+// The helpers that split a request URL into path, query and track id never index or slice out
+// of range, whatever the URL is, and a track id returned without error is never empty (so
+// findMediaByTrackID is never asked for medias[0] of an empty list by that path).
+//@ func stringsReverseIndex
+//@   opt safety-tag=C20
+//@   ensures[C20] ret >= -1 && (ret >= 0 ==> ret + len(substr) < len(s))
+//@   modifies nothing
+//@   loop 1
+//@     invariant i <= len(s) - 1 - len(substr)
+
+//@ func getPathAndQuery
+//@   opt safety-tag=C20
+//@   requires u != nil
+//@   ensures[C20] len(ret0) <= len(u.Path) && len(ret1) <= len(u.RawQuery)
+//@   modifies nothing
+
+//@ func getPathAndQueryAndTrackID
+//@   opt safety-tag=C20
+//@   requires u != nil
+//@   ensures[C20] err == nil ==> len(ret2) >= 1 && len(ret0) <= len(u.Path) && len(ret1) <= len(u.RawQuery)
+//@   ensures[C20] err != nil ==> ret0 == "" && ret1 == "" && ret2 == ""
+//@   modifies fresh
+
+//@ func findMediaByTrackID
+//@   opt safety-tag=C20
+//@   requires trackID != "" || len(medias) >= 1
+//@   modifies nothing
